@@ -265,6 +265,9 @@ def step (st : St) (line : String) : St × String :=
     -- fault injection on the session store (`new … pe=faulty`): Remove reports a failure after doing its work; ending a session
     -- does everything else regardless — nothing changes for the model
     | "api", "failremove" :: _ => finish st b
+    -- `api failat k`: the k-th call into the persistence layer fails (harness/cmd/drive_broker/faultpe.go). Used only in front of
+    -- operations whose outcome the fault must not change (the streams say which), so the model ignores it
+    | "api", "failat" :: _ => finish st b
     | "api", "backdate" :: cid :: secs :: _ =>
       if (b.sess? (unesc cid)).isNone then
         let (st, s) := finish st b
